@@ -155,7 +155,9 @@ unicode_wstfont2(unsigned int c, int italic)
 	} else /* 0xF000 ... 0xF7FF reserved for DRCS */
 		return invalid;
 
-	if (italic)
+	/* The font has slanted versions of the first 17 glyph rows only
+	   (rows 31 ... 47); Cyrillic 0x0440 ... 0x045F is row 17. */
+	if (italic && c < 17 * 32)
 		return c + 31 * 32;
 	else
 		return c;
